@@ -290,6 +290,7 @@ class BaseDriver:
 
         Raises:
             ScrapliValueError: if host is not provided
+            ScrapliValueError: if host starts with a "-" (it would be parsed as an option by ssh)
             ScrapliTypeError: if port is not an integer
 
         """
@@ -298,7 +299,14 @@ class BaseDriver:
         if not isinstance(port, int):
             raise ScrapliTypeError(f"`port` should be int, got {type(port)}")
 
-        return host.strip(), port
+        host = host.strip()
+
+        if host.startswith("-"):
+            # the system transport hands the host to the ssh binary as an argument, a leading dash
+            # would turn the host into an ssh option (i.e. "-oProxyCommand=...")
+            raise ScrapliValueError(f"`host` should be a hostname/ip address, got '{host}'")
+
+        return host, port
 
     @staticmethod
     def _setup_auth(
